@@ -3,7 +3,7 @@
 (* Row validation for Authz.tla.  trace.ndjson holds one "Row" event per   *)
 (* input row the real code was run on:                                     *)
 (*   [t, seq, e |-> "Row", via, in |-> <row of Authz.tla>,                 *)
-(*    out |-> [accepted, stage, code]]                                     *)
+(*    out |-> [accepted, flagged, stage, code]]                            *)
 (* via = "direct":   check.authorize_sender CheckSender + CheckBody         *)
 (* via = "endpoint": AUTH, MAIL, RCPT, DATA on the real endpoint           *)
 (*                                                                         *)
@@ -20,7 +20,8 @@ Trace == ndJsonDeserialize("trace.ndjson")
 Expl(S) == IF S = {} THEN {} ELSE {CHOOSE D \in S : \A E \in S : Cardinality(D) <= Cardinality(E)}
 
 Verdict(e) ==
-  LET ex == Expl({D \in SUBSET Devs : Rule(e.in, D).accepted = e.out.accepted})
+  LET ex == Expl({D \in SUBSET Devs : Rule(e.in, D).accepted = e.out.accepted
+                                       /\ Rule(e.in, D).flagged = e.out.flagged})
       D  == IF ex = {} THEN {} ELSE CHOOSE d \in ex : TRUE
       dr == e.via = "direct" /\ ex = {}
   IN [t |-> e.t, drift |-> dr, driftAt |-> IF dr THEN e.seq ELSE 0,
